@@ -606,7 +606,14 @@ func flprog() {
 			rep.count("ended-in-panic")
 		}
 		if i < 2 {
-			rep.sample(map[string]any{"kind": kind, "lines": in[:min(len(in), 12)], "impl": want[:min(len(want), 12)]})
+			short := func(l []string) []string {
+				out := make([]string, 0, 12)
+				for _, x := range l[:min(len(l), 12)] {
+					out = append(out, truncate(x, 200))
+				}
+				return out
+			}
+			rep.sample(map[string]any{"kind": kind, "lines": short(in), "impl": short(want)})
 		}
 		if mf != "" {
 			sig := strings.SplitN(mf, ":", 2)[0]
